@@ -2,6 +2,7 @@
 # usage: mut.sh <file rel> <sed expr> <dev.py args...>   -- apply a sed mutation in the scratch worktree, run dev.py, revert
 f=$1; e=$2; shift 2
 WT=${MUT_WT:-/tmp/wt/mut}
+[ -d "$WT" ] || git -C /repo worktree add -q --detach "$WT" main
 cd $WT && git checkout -q -- . && sed -i "$e" "$f" && git diff --stat | tail -1
 cd /verif && SIMPROCESD_ROOT=$WT PYTHONPATH=/verif timeout 600 python3-vt dev.py "$@" 2>&1 | grep -v "^  ok"
 cd $WT && git checkout -q -- .
